@@ -94,7 +94,7 @@ func (f *ftr) fail(n ast.Node, format string, a ...any) {
 }
 
 var coqReserved = map[string]bool{"at": true, "as": true, "in": true, "fun": true, "end": true, "match": true, "with": true, "if": true, "then": true, "else": true, "let": true,
-	"fix": true, "forall": true, "exists": true, "Type": true, "Set": true, "Prop": true, "return": true, "using": true, "where": true, "do": true, "mod": true, "max": true, "min": true, "tt": true, "S": true, "O": true}
+	"fix": true, "kid": true, "has": true, "lookup": true, "forall": true, "exists": true, "Type": true, "Set": true, "Prop": true, "return": true, "using": true, "where": true, "do": true, "mod": true, "max": true, "min": true, "tt": true, "S": true, "O": true}
 
 func coqName(s string) string {
 	if coqReserved[s] {
@@ -907,6 +907,10 @@ func (f *ftr) emit(b []irStmt, k kont, scope map[string]bool) string {
 	case irReturn:
 		if len(rest) > 0 {
 			f.err = firstErr(f.err, fmt.Errorf("%s: statements after return", f.fd.Name.Name))
+		}
+		if isErrReturn(x) {
+			// returning an error leaves the function whatever the nesting: Err propagates through every bind and loop
+			return "Err"
 		}
 		switch k.kind {
 		case 0:
